@@ -97,7 +97,7 @@ func header(sc *scn.Scenario, expr parser.Expr) vt.Ev {
 	}
 	return vt.Ev{"ev": "sc", "id": sc.ID, "sc": sc.ID, "fam": sc.Fam, "tickms": sc.TickMs, "data": data, "plan": nodes,
 		"spec": ok, "nospec": why, "q": sc.Query(), "start": sc.Start, "end": sc.End, "step": sc.Step,
-		"lb": sc.LB, "qlb": sc.QLB, "kind": run.ExprKind(expr, sc.IsInstant())}
+		"lb": sc.LB, "qlb": sc.QLB, "kind": run.ExprKind(expr, sc.IsInstant()), "base": sc.Base() / 1000}
 }
 
 func unsupported(err error) bool {
